@@ -35,7 +35,11 @@
 (* (A^T A = I, (A^T A)' = 0); the curvature formula is the axial vector of *)
 (* A^T A' (A' the change of A along P'); at a node (N = unit vector) the   *)
 (* cross-section has the nodal position, orientation and velocity; q_dot   *)
-(* keeps |P|^2 constant to first order (P . P_dot = 0).                    *)
+(* keeps |P|^2 constant to first order (P . P_dot = 0).  ObjectivityOK     *)
+(* (C10): under a rigid motion of the element (r_i -> R0 r_i + d,          *)
+(* P_i -> Q0 o P_i) the strain measures and the body-fixed nodal couples   *)
+(* are unchanged, the nodal forces turn with R0, and the nodal forces of   *)
+(* an element have zero resultant.                                         *)
 (* Impl = "as_found": q_dot_u built from the normalised quaternion (the    *)
 (* pinned tree) -- rejected on non-unit quaternions.                       *)
 (* Mode "trace": records from real rod elements are recomputed.            *)
@@ -194,7 +198,7 @@ QV(p) == [c \in 1..Len(p) |-> Q(p[c])]
 CaseRec(c) == [interp |-> c.interp, N |-> c.w, Nxi |-> <<<<0 - 1, 1>>, <<1, 1>>>>,
                r |-> <<QV(<<0, 1, 0 - 1>>), QV(<<2, 0, 1>>)>>, P |-> <<QV(c.P1), QV(c.P2)>>,
                v |-> <<QV(<<1, 0, 2>>), QV(<<0, 0 - 1, 1>>)>>, om |-> <<QV(c.om), QV(<<1, 1, 0>>)>>, Br |-> QV(<<1, 0 - 1, 2>>),
-               dk |-> "q", dnode |-> 1, dcomp |-> c.comp]
+               dk |-> "q", dnode |-> 1, dcomp |-> c.comp, form |-> "db", Ei |-> <<>>, Fi |-> <<>>, qps |-> <<>>]
 MatTMat(A, B, part) ==  \* (A^T B) with the chosen parts, rational
     [i \in 1..3 |-> [j \in 1..3 |-> RAdd(RAdd(RMul(A[1][i][part[1]], B[1][j][part[2]]), RMul(A[2][i][part[1]], B[2][j][part[2]])), RMul(A[3][i][part[1]], B[3][j][part[2]]))]]
 Id3 == [i \in 1..3 |-> [j \in 1..3 |-> IF i = j THEN One ELSE Zero]]
@@ -238,7 +242,35 @@ NodeOK(c) ==
        /\ dot(Pv, col) = Zero
        /\ (Impl = "as_found" => s = One)                               \* the normalised column is the derivative only for unit quaternions
        /\ RMul(RI(4), dot(col, col)) = s                               \* |dP_dot/dom_c|^2 = |P|^2 / 4 : the true column scales with |P|
+\* ---- objectivity and self-equilibrium (C10), on the same lattice
+\* a rigid motion of the whole element: r_i -> R(Q0) r_i + d,  P_i -> Q0 o P_i
+Moved(r, Q0, d) ==
+    LET Qd == [k \in 1..4 |-> DC(Q(Q0[k]))]
+        R0 == DQuatR(Qd)
+        mv(x) == LET y == DMatVec(R0, <<DC(R(x[1])), DC(R(x[2])), DC(R(x[3]))>>) IN <<RAdd(y[1].v, Q(d[1])), RAdd(y[2].v, Q(d[2])), RAdd(y[3].v, Q(d[3]))>>
+        mp(x) == LET y == DQProd(Qd, <<DC(R(x[1])), DC(R(x[2])), DC(R(x[3])), DC(R(x[4]))>>) IN <<y[1].v, y[2].v, y[3].v, y[4].v>>
+    IN [r EXCEPT !.r = <<mv(r.r[1]), mv(r.r[2])>>, !.P = <<mp(r.P[1]), mp(r.P[2])>>]
+WeakRec(r) == [r EXCEPT !.form = "db", !.Ei = QV(<<5, 1, 2>>), !.Fi = QV(<<1, 2, 3>>),
+                        !.qps = <<[N |-> r.N, Nxi |-> r.Nxi, Np |-> r.N, Npxi |-> r.Nxi, w |-> <<3, 2>>, J |-> <<2, 1>>, Gam0 |-> QV(<<1, 0, 0>>), Kap0 |-> QV(<<0, 0, 0>>),
+                                    n |-> QV(<<0, 0, 0>>), m |-> QV(<<0, 0, 0>>), Nla |-> <<<<1, 1>>>>]>>]
+Vals(x) == [k \in 1..Len(x) |-> x[k].v]
+ObjectiveOK(c) ==
+    LET r0 == [CaseRec(c) EXCEPT !.dk = "none"]
+        r == r0
+        Q0 == IF c.comp % 2 = 0 THEN <<1, 1, 0, 0>> ELSE <<1, 0 - 1, 1, 1>>
+        rm == Moved(r, Q0, <<1, 0 - 2, 3>>)
+        PcZero == \A k \in 1..4 : RAdd(RMul(R(c.w[1]), Q(c.P1[k])), RMul(R(c.w[2]), Q(c.P2[k]))) = Zero
+        x == Section(r)  y == Section(rm)
+        R0 == DQuatR([k \in 1..4 |-> DC(Q(Q0[k]))])
+        w == Weak(WeakRec(r))  wm == Weak(WeakRec(rm))
+        fr(ww, node) == <<ww.f[(node - 1) * 6 + 1], ww.f[(node - 1) * 6 + 2], ww.f[(node - 1) * 6 + 3]>>
+    IN PcZero \/
+       /\ Vals(y.Gam) = Vals(x.Gam) /\ Vals(y.Kap) = Vals(x.Kap)                                  \* strain measures are objective
+       /\ \A node \in 1..2 : /\ Vals(fr(wm, node)) = Vals(DMatVec(R0, fr(w, node)))               \* nodal forces turn with the motion
+                              /\ \A k \in 4..6 : wm.f[(node - 1) * 6 + k].v = w.f[(node - 1) * 6 + k].v   \* body-fixed couples are unchanged
+       /\ \A k \in 1..3 : RAdd(w.f[k].v, w.f[6 + k].v) = Zero                                     \* the nodal forces have zero resultant
 IdentitiesOK == Mode = "identities" => (SectionOK(case) /\ CurvatureOK(case) /\ NodeOK(case))
+ObjectivityOK == Mode = "identities" => ObjectiveOK(case)
 
 TraceLog == IF Mode = "trace" THEN ndJsonDeserialize(IOEnv.TRACE_FILE) ELSE <<>>
 Init == IF Mode = "identities" THEN case \in Cases /\ l = 0 /\ verdicts = <<>> ELSE case = <<>> /\ l = 1 /\ verdicts = <<>>
